@@ -74,3 +74,9 @@ SAMPLES = {
   'COMPLETION_BETTING_OR_RAISING': [('<action no="6" player="player1" type="5" sum="$2" cards=""/>', {'player': 'player1', 'amount': '2'}), ('<action no="7" player="p2" type="23" sum="$6" cards=""/>', {'player': 'p2', 'amount': '6'}), ('<action no="8" player="p3" type="6" sum="$4" cards=""/>', {'player': 'p3', 'amount': '4'})],
  },
 }
+
+# amounts written with thousands separators (the sites that write them capture [0-9.,]+)
+THOUSANDS = {'FullTiltPokerParser': {'COMPLETION_BETTING_OR_RAISING': [('p2 raises to $1,200', {'player': 'p2', 'amount': '1,200'}), ('p2 bets $2,500.50', {'player': 'p2', 'amount': '2,500.50'})], 'BLIND_OR_STRADDLE_POSTING': [('p2 posts the big blind of $1,000', {'player': 'p2', 'blind_or_straddle': '1,000'})], 'STARTING_STACKS': [('Seat 1: player one ($12,345.50)', {'player': 'player one', 'starting_stack': '12,345.50'})]}, 'PartyPokerParser': {'COMPLETION_BETTING_OR_RAISING': [('p2 raises [$1,200 USD]', {'player': 'p2', 'amount': '1,200'}), ('p3 is all-In  [$2,500.50 USD]', {'player': 'p3', 'amount': '2,500.50'})], 'BLIND_OR_STRADDLE_POSTING': [('p2 posts big blind [$1,000 USD].', {'player': 'p2', 'blind_or_straddle': '1,000'})], 'STARTING_STACKS': [('Seat 1: player1 ( $12,345.50 USD )', {'player': 'player1', 'starting_stack': '12,345.50'})]}, 'AbsolutePokerParser': {'COMPLETION_BETTING_OR_RAISING': [('P2 - Raises $1,200 to $2,400', {'player': 'P2', 'amount': '1,200'}), ('P4 - All-In $2,500.50', {'player': 'P4', 'amount': '2,500.50'})], 'BLIND_OR_STRADDLE_POSTING': [('P2 - Posts big blind $1,000', {'player': 'P2', 'blind_or_straddle': '1,000'})], 'STARTING_STACKS': [('Seat 1 - PLAYER1 ($12,345.50 in chips)', {'player': 'PLAYER1', 'starting_stack': '12,345.50'})], 'ANTE_POSTING': [('PLAYER1 - Ante $1,000', {'player': 'PLAYER1', 'ante': '1,000'})]}, 'OngameNetworkParser': {'COMPLETION_BETTING_OR_RAISING': [('p2 raises $1,200 to $2,400', {'player': 'p2', 'amount': '1,200'}), ('player1 bets $2,500.50', {'player': 'player1', 'amount': '2,500.50'})], 'BLIND_OR_STRADDLE_POSTING': [('p2 posts big blind ($1,000)', {'player': 'p2', 'blind_or_straddle': '1,000'})], 'STARTING_STACKS': [('Seat 1: player1 ($12,345.50) ', {'player': 'player1', 'starting_stack': '12,345.50'})]}, 'IPokerNetworkParser': {'COMPLETION_BETTING_OR_RAISING': [('<action no="7" player="p2" type="23" sum="$1,200" cards=""/>', {'player': 'p2', 'amount': '1,200'})], 'BLIND_OR_STRADDLE_POSTING': [('<action no="2" player="p2" type="2" sum="$1,000" cards="[cards]"/>', {'player': 'p2', 'blind_or_straddle': '1,000'})], 'STARTING_STACKS': [('<player seat="1" name="player1" chips="$12,345.50" dealer="0" win="$0" bet="$1,000"/>', {'player': 'player1', 'starting_stack': '12,345.50'})]}}
+for _c, _p in THOUSANDS.items():
+    for _a, _s in _p.items():
+        SAMPLES.setdefault(_c, {}).setdefault(_a, []).extend(_s)
